@@ -11,7 +11,7 @@ from .rules.graph import rule_keys, rule_order, rule_cover, rule_axiskey
 from .rules import misc as M
 from .rules.lazyrule import rule_lazy
 from .rules.pickle_nondet import rule_pickle, rule_nondet, rule_fillflow
-from .rules.wiring import rule_passthrough_sort, rule_passthrough_engine, rule_counter, rule_globalidx
+from .rules.wiring import rule_passthrough_sort, rule_passthrough_engine, rule_counter, rule_globalidx, rule_sorted, rule_infresolve
 
 PROPERTIES = {
     "C01": {
@@ -129,13 +129,13 @@ PROPERTIES = {
         "explanation": "R-DTYPETABLE, R-FINALCAST, R-PROMOTE",
     },
     "C16": {
-        "rules": [M.rule_coindex, rule_passthrough_sort],
+        "rules": [M.rule_coindex, rule_passthrough_sort, rule_sorted],
         "thorough": [selftest],
         "technique": "syntactic co-indexing of values and labels in one basic block",
         "level_text": "Static: whenever groupby_reduce re-indexes the result along the group axis it re-indexes the labels with the same "
                       "index in the same block, and vice versa; every stage that takes `sort` receives the caller's `sort` unchanged "
                       "(scans pin it by design). Which order results is not decided.",
-        "explanation": "R-COINDEX, R-PASSTHROUGH[sort]",
+        "explanation": "R-COINDEX, R-PASSTHROUGH[sort], R-SORTED",
     },
     "C18": {
         "rules": [M.rule_blockonly],
@@ -147,13 +147,13 @@ PROPERTIES = {
         "explanation": "R-BLOCKONLY",
     },
     "C20": {
-        "rules": [M.rule_collide, M.rule_castorder],
+        "rules": [M.rule_collide, M.rule_castorder, rule_infresolve],
         "thorough": [selftest],
         "technique": "sentinel-collision pattern on NaN substitutes; dtype plumbing of the engine wrappers; widening table",
         "level_text": "Static: no all-NaN detector compares a result with its own NaN substitute unless conjoined with a valid-member "
                       "count; the reduceat calls and output buffer use the requested dtype; numbagg's input casts only widen and the "
                       "requested dtype applies to the result. Overflow and cancellation numerics are not decided.",
-        "explanation": "R-COLLIDE, R-CASTORDER",
+        "explanation": "R-COLLIDE, R-CASTORDER, R-INFRESOLVE",
     },
     "C03": {
         "rules": [rule_keys, rule_order, rule_axiskey, rule_global, rule_algebra],
@@ -178,7 +178,7 @@ PROPERTIES = {
         "explanation": "R-COVER, R-KEYS, R-AXISKEY, R-TOKEN",
     },
     "C04": {
-        "rules": [rule_algebra, rule_parallel],
+        "rules": [rule_algebra, rule_parallel, rule_infresolve],
         "thorough": [selftest, user_blueprints],
         "technique": "registry constant-evaluation + table comparison (custom AST checker)",
         "level_text": "Static, all-paths: every registered blueprint's (block kernel, combine, intermediate fill, intermediate dtype, "
